@@ -266,11 +266,14 @@ type RealPair struct {
 
 var realArchNames = []string{"all", "any", "amd64", "i386", "arm64", "armhf", "armel", "mips64el", "mipsel", "ppc64el", "ppc64", "powerpc", "riscv64", "s390x", "sparc64", "x32", "alpha", "hppa", "ia64", "m68k", "sh4", "loong64",
 	"linux-any", "kfreebsd-any", "hurd-any", "any-amd64", "any-i386", "any-arm64", "any-arm", "kfreebsd-amd64", "kfreebsd-i386", "hurd-i386", "hurd-amd64", "linux-amd64", "linux-i386",
-	"gnu-linux-amd64", "gnu-linux-i386", "musl-linux-amd64", "musl-linux-arm64", "gnu-kfreebsd-amd64", "gnu-hurd-i386", "gnu-any-any", "musl-any-any", "any-linux-any", "any-any-amd64", "gnu-linux-any", "any-any-any", "uclibc-linux-armel", "gnueabihf-linux-arm", "musleabihf-linux-arm"}
+	"gnu-linux-amd64", "gnu-linux-i386", "musl-linux-amd64", "musl-linux-arm64", "gnu-kfreebsd-amd64", "gnu-hurd-i386", "gnu-any-any", "musl-any-any", "any-linux-any", "any-any-amd64", "gnu-linux-any", "any-any-any", "uclibc-linux-armel", "gnueabihf-linux-arm", "musleabihf-linux-arm",
+	// ... two-part names of the other kernels in dpkg's ostable, and their wildcards
+	"uclinux-armel", "mint-m68k", "aix-powerpc", "darwin-arm64", "freebsd-amd64", "netbsd-i386", "openbsd-sparc64", "solaris-sparc", "kopensolaris-amd64", "knetbsd-i386", "dragonflybsd-amd64",
+	"freebsd-any", "darwin-any", "solaris-any", "uclinux-any", "netbsd-any", "any-sparc", "any-powerpc", "any-m68k", "any-armel"}
 
 var specC06Real = Register(&Spec[RealPair]{
 	Prop: "C06", Name: "realnames",
-	Rule: "random pairs of ~50 real Debian architecture names and wildcards (1-, 2- and 3-part), parsed with ParseArch; the oracle is applied to the independent name model (1 part: atoms any/all or gnu-linux-CPU; 2 parts: a wildcard with unconstrained ABI when a component is 'any', otherwise the concrete architecture of that OS - hurd-i386, kfreebsd-amd64, linux-amd64 (= amd64) - which matches itself, any, OS-any and any-CPU; 3 parts: literal). Pairs where both names contain an 'any' component are outside the statement and are counted as skipped, as are pairs whose answer would hinge on which ABI is the default of a non-linux OS; for the rest a.Is(b) == b.Is(a) == model. Non-trivial: exactly one side is a wildcard; distinct by (a,b).",
+	Rule: "random pairs of ~70 real Debian architecture names (all kernels of dpkg's ostable among the two-part ones) and wildcards (1-, 2- and 3-part), parsed with ParseArch; the oracle is applied to the independent name model (1 part: atoms any/all or gnu-linux-CPU; 2 parts: a wildcard with unconstrained ABI when a component is 'any', otherwise the concrete architecture of that OS - hurd-i386, kfreebsd-amd64, linux-amd64 (= amd64) - which matches itself, any, OS-any and any-CPU; 3 parts: literal). Pairs where both names contain an 'any' component are outside the statement and are counted as skipped, as are pairs whose answer would hinge on which ABI is the default of a non-linux OS; for the rest a.Is(b) == b.Is(a) == model. Non-trivial: exactly one side is a wildcard; distinct by (a,b).",
 	Check: func(c RealPair, r *Recorder) error {
 		ma, _ := archModel(c.A)
 		mb, _ := archModel(c.B)
@@ -361,7 +364,9 @@ func genSelectCase(t *rapid.T) SelectCase {
 		}
 	}
 	// bias arch lists towards names that interact with the concrete arch
-	return SelectCase{AST: ast, Text: renderDep(ast, canonicalSpacer), Arch: rapid.SampledFrom(concreteNames).Draw(t, "arch")}
+	// (the field as a folded control field carries it: line ends, tabs, CR LF wherever a blank may stand)
+	scheme := rapid.SampledFrom([]string{"S0-canonical", "S0-canonical", "S1-minimal", "S3-folded", "S5-tabs", "S6-newlines", "S7-nl-indent", "S8-crlf", "S2-double"}).Draw(t, "scheme")
+	return SelectCase{AST: ast, Text: renderDep(ast, fixedSchemes[scheme]), Arch: rapid.SampledFrom(concreteNames).Draw(t, "arch")}
 }
 
 func altAdmits(a AltAST, c Triple3) bool {
@@ -375,7 +380,7 @@ func altAdmits(a AltAST, c Triple3) bool {
 
 var specC06Select = Register(&Spec[SelectCase]{
 	Prop: "C06", Name: "select",
-	Rule: "random dependency ASTs (C04 generator, canonical spacing) parsed and queried for one of 13 concrete architectures (one-part, three-part and two-part OS-CPU names such as hurd-i386). Oracle on the AST: GetPossibilities returns, per relation and in order, the first non-substvar alternative whose architecture list admits the architecture (nothing for a relation with none); GetAllPossibilities returns every non-substvar alternative in order; GetSubstvars the substvars in order; the same relations built as struct literals (no architecture list = nil) select the same alternatives; the same Dependency queried for four more architectures and the first one again answers each according to the field as written, and the first results, kept meanwhile, still say the same afterwards. Non-trivial: some relation selects a later alternative or selects nothing although it has package alternatives; distinct by (text, arch).",
+	Rule: "random dependency ASTs (C04 generator; canonical spacing, or minimal, doubled, folded, tabs, line ends, line end + indent, CR LF wherever a blank may stand) parsed and queried for one of 13 concrete architectures (one-part, three-part and two-part OS-CPU names such as hurd-i386). Oracle on the AST: GetPossibilities returns, per relation and in order, the first non-substvar alternative whose architecture list admits the architecture (nothing for a relation with none); GetAllPossibilities returns every non-substvar alternative in order; GetSubstvars the substvars in order; the same relations built as struct literals (no architecture list = nil) select the same alternatives; the same Dependency queried for four more architectures and the first one again answers each according to the field as written, and the first results, kept meanwhile, still say the same afterwards. Non-trivial: some relation selects a later alternative or selects nothing although it has package alternatives; distinct by (text, arch).",
 	Check: func(c SelectCase, r *Recorder) error {
 		cm, _ := archModel(c.Arch)
 		for _, rel := range c.AST.Rels {
